@@ -1,0 +1,99 @@
+//go:build verif
+
+// Contracts for the gowp verifier (/verif). Comment-only file: compiled only with -tags verif and
+// contributes no code either way.
+
+package shachain
+
+//@ spec func bitAt(x int, p int) int = fdiv(x, 1 << p) % 2
+//@ spec func lowMask(p int) int = (1 << p) - 1
+//@
+//@ // x & (2^64 - 2^p) clears the p low bits (bit-vector fact about Go's & operator)
+//@ lemma bv clearLow(x uint64, p uint8): p <= 63 ==>
+//@        band64(x, 18446744073709551615 - ((uint64(1) << p) - 1)) == x - x % (uint64(1) << p)
+//@   props C06
+//@
+//@ func getBit
+//@   props C06
+//@   requires position < 64
+//@   ensures  result == bitAt(index, position)
+//@   modifies nothing
+//@   replay scalar
+//@
+//@ func getPrefix
+//@   props C06
+//@   uses clearLow(index, position)
+//@   requires position <= 48
+//@   ensures  result == index - index % (1 << position)
+//@   modifies nothing
+//@   replay scalar
+//@
+//@ func countTrailingZeros
+//@   props C06
+//@   ensures result <= 48
+//@   ensures index % (1 << result) == 0
+//@   ensures result < 48 ==> bitAt(index, result) == 1
+//@   loop 0 invariant zeros <= 48 && index % (1 << zeros) == 0
+//@   modifies nothing
+//@   replay scalar
+//@
+//@ func newIndex
+//@   props C06
+//@   requires v < 1<<48
+//@   ensures  result == (1<<48) - 1 - v
+//@   replay scalar
+//@
+//@ func (from index) deriveBitTransformations
+//@   props C06
+//@   let z = ret(countTrailingZeros)
+//@   ensures  from == to ==> result1 == nil && len(result0) == 0
+//@   ensures  from != to ==> (result1 == nil <==> from == to - to % (1 << z))
+//@   loop 0 invariant position < z && z <= 48 && z >= 1
+//@   site call countTrailingZeros: assert arg(0) == from
+//@   site call getPrefix: assert arg(index) == to && arg(position) == ret(countTrailingZeros)
+//@   site call getBit: assert arg(index) == to && arg(position) == position
+//@   site call append: assert ret(getBit) == 1 && bitAt(to, position) == 1 && position < z
+//@   nopanic
+//@
+//@ func (e *element) isEqual
+//@   props C06
+//@   ensures result ==> e.index == e2.index && ret(IsEqual)
+//@   site call IsEqual: assert arg(0) == addr(e.hash) && arg(1) == addr(e2.hash)
+//@   modifies nothing
+//@
+//@ func (e *element) derive
+//@   props C06
+//@   loop * havoc
+//@   ensures result1 == nil ==> result0 != nil && result0.index == toIndex
+//@   ensures result1 == nil ==> retn(deriveBitTransformations, 1) == nil
+//@   modifies-assumed nothing
+//@   ensures retn(deriveBitTransformations, 1) != nil ==> result1 != nil
+//@   site call deriveBitTransformations: assert arg(0) == e.index && arg(to) == toIndex
+//@
+//@ func (store *RevocationStore) AddNextEntry
+//@   props C06
+//@   requires store != nil && hash != nil && store.index < 1<<48 && store.lenBuckets <= 48
+//@   let b = ret(countTrailingZeros)
+//@   ensures result == nil ==> store.index == wrap(old(store.index) - 1, 64)
+//@   ensures result == nil ==> store.buckets[b].index == old(store.index) && store.buckets[b].hash == old(*hash)
+//@   ensures result == nil ==> store.lenBuckets == max(old(store.lenBuckets), b + 1)
+//@   ensures result == nil ==> forall(j, 0, 48, j != b ==> store.buckets[j].index == old(store.buckets[j].index) &&
+//@           store.buckets[j].hash == old(store.buckets[j].hash))
+//@   ensures result != nil ==> store.index == old(store.index) && store.lenBuckets == old(store.lenBuckets)
+//@   ensures old(store.index) != 0 ==> b < 48
+//@   loop 0 invariant i <= bucket
+//@   loop 0 step retn(derive, 1) == nil && ret(isEqual) && i == prev(i) + 1
+//@   site return nil: assert i == bucket
+//@   site call countTrailingZeros: assert arg(0) == store.index
+//@   site call derive: assert arg(0).index == store.index && arg(0).hash == *hash && arg(toIndex) == store.buckets[i].index
+//@   site call isEqual: assert arg(0) == retn(derive, 0) && arg(e2) == addr(store.buckets[i])
+//@   nopanic
+//@
+//@ func (store *RevocationStore) LookUp
+//@   props C06
+//@   requires store != nil && store.lenBuckets <= 48 && v < 1<<48
+//@   loop 0 invariant i <= store.lenBuckets
+//@   site call newIndex: assert arg(0) == v
+//@   site call derive: assert arg(0) == addr(store.buckets[i]) && arg(toIndex) == ret(newIndex) && i < store.lenBuckets
+//@   ensures result1 == nil ==> retn(derive, 1) == nil && result0 == addr(retn(derive, 0).hash)
+//@   nopanic
